@@ -365,6 +365,22 @@ def r5(ctx, P):
            "no metadata()/Metadata::len in producer-reachable cli code" if not metas else
            "producer-side code reads file metadata (%s in %s): a size/date criterion applied before read_file skips files that scanning the file alone — and the library — process, and "
            "the skipped file is not even counted" % (sorted({c.name for c in metas}), metas[0].fn.id), where=metas[0].fn.loc(metas[0].line) if metas else None)
+    # only REGULAR files become work items: the walker also yields symlinks (without --follow), FIFOs, sockets and devices; an entry
+    # filter that merely excludes directories lets a FIFO block a walker thread in open() forever and reads a symlinked file twice
+    fr0 = ctx.anchor("R5", r"^ast_grep::utils::worker::filter_result$")
+    if fr0:
+        fr = prog.inlined(fr0)
+        from ..query import bool_arms
+        isf = [c for c in fr.calls if c.name == "is_file" and "FileType" in c.best and c.bb in fr.live_blocks]
+        somes = [bi for bi in sorted(fr.live_blocks) for st in fr.blocks[bi]["s"] if st[0] == "A" and st[1][0] == 0 and not st[1][1] and st[2][0] == "agg" and st[2][1].get("variant") == "Some"]
+        okf = False
+        if isf and somes:
+            ba = bool_arms(fr, isf[0])
+            okf = bool(ba) and all(fr.dominates(ba["true"], b) or ba["true"] == b for b in somes)
+        ctx.ob("R5", "filter_result passes regular files only", okf,
+               "Some(path) is returned only on the true arm of FileType::is_file()" if okf else
+               "the entry filter does not require file_type().is_file() for what it passes on (is_file calls: %d): symlinks, FIFOs and devices yielded by the walker reach read_to_string — a FIFO "
+               "blocks a walker thread forever (the scan never ends), a symlinked file is scanned twice" % len(isf), where=fr0.loc())
     rf = ctx.anchor("R5", r"^ast_grep::utils::read_file$")
     tl = ctx.anchor("R5", r"^ast_grep::utils::file_too_large$")
     if rf and tl:
